@@ -1039,6 +1039,8 @@ func (nt *Net) checkReloadedProposer(n *Node, st *sm.State) {
 	if !n.Byz {
 		nt.Mon.report("C07", map[string]string{"kind": "proposer-differs-after-reload", "site": "ValidatorSet.Proposer"},
 			fmt.Sprintf("node %d reloaded its state for height %d and computes validator %X as round-0 proposer; replicas that did not restart have %X (the cached proposer is not persisted and cannot be recomputed from the decremented accumulators)", n.Idx, h, got.Address[:4], want.Address[:4]))
+		nt.Mon.report("C16", map[string]string{"kind": "proposer-differs-after-reload", "site": "ValidatorSet.Proposer"},
+			fmt.Sprintf("node %d reloaded its state for height %d and computes validator %X as round-0 proposer; replicas that did not restart have %X", n.Idx, h, got.Address[:4], want.Address[:4]))
 	}
 	if nt.Sc.NoProposerFix {
 		nt.drift = true
